@@ -5,7 +5,7 @@ From QT Require Import Gen.C11Gen.
 Open Scope Z_scope.
 
 Definition run_gen (cap : nat) (tr : list event) : state * list output :=
-  run event_table reset_prog session_expiry_factor cap tr.
+  let '(x, o) := grun event_table reset_prog session_expiry_factor cap tr in (snd x, o).
 
 Definition obs_sess_of (x : Z * session) : obs_sess :=
   let '(k, s) := x in (k, map e_id (s_queue s), s_level s, s_future s, s_accessed s, s_timeout s).
